@@ -18,7 +18,7 @@ import warnings
 
 import numpy as np
 
-REPO = os.environ.get("PYVC_REPO", "/repo")
+REPO = os.environ.get("VERIF_REPO", "/repo")
 DIRS = [("cirq", "cirq-core/cirq/protocols/json_test_data"), ("cirq_google", "cirq-google/cirq_google/json_test_data"), ("cirq_ionq", "cirq-ionq/cirq_ionq/json_test_data"),
         ("cirq_aqt", "cirq-aqt/cirq_aqt/json_test_data"), ("cirq_pasqal", "cirq-pasqal/cirq_pasqal/json_test_data")]
 
